@@ -237,8 +237,14 @@ class MapToMolecule(Processor):
             # set the resid of the new-molecule in case we don't start with 1
             nx.set_node_attributes(new_mol, resid_dict[start_node], "resid")
 
-            # we store the block together with the residue node
-            meta_molecule.nodes[start_node]["graph"] = new_mol.copy()
+            # we store the block together with the residue node; as for all
+            # other residues the attributes of the residue node are propagated
+            # to the atoms such that links can select on them
+            residue = new_mol.copy()
+            for attribute, value in meta_molecule.nodes[start_node].items():
+                if attribute not in ["graph", "seqID"]:
+                    nx.set_node_attributes(residue, value, attribute)
+            meta_molecule.nodes[start_node]["graph"] = residue
 
         # now we loop over the rest of the nodes
         for node in node_keys[1:]:
